@@ -89,6 +89,21 @@ func c15Sequence(seq []string) (msg, kind string) {
 			for _, u := range ups {
 				u.pending = true
 			}
+		case "rollback":
+			// the operator activates the previous version again; the poll installs it (a lower number)
+			if !svc.Back("d") {
+				continue
+			}
+			armed := cache.FailNext
+			if err := st.Refresh(context.Background()); err != nil && !armed {
+				return where + ": Refresh: " + err.Error(), "harness"
+			}
+			if _, val, _ := svc.Active("d"); string(st.Secret("d").Get()) != val {
+				return where + ": the poll did not install the re-activated version", "harness"
+			}
+			for _, u := range ups {
+				u.pending = true
+			}
 		case "failnext":
 			failNext = !failNext
 		case "new":
@@ -189,8 +204,8 @@ func c15Sequential(env *report.Env, rep *report.Report) {
 		depth = 8
 	}
 	sec := rep.Add(&report.Section{Name: fmt.Sprintf("seq-all-sequences-depth%d", depth), Engine: "seqx", Exhaustive: true, Extra: map[string]int64{},
-		Rule: "every sequence over {install (server change + poll), Get(u1), Get(u2), NewUpdater, toggle builder-fails-next, make the next cache write fail} up to the depth on a real Store, against a model of the level-triggered notification; non-trivial = sequences containing an install followed by a Get"})
-	evs := []string{"install", "get1", "get2", "new", "failnext", "cachefail"}
+		Rule: "every sequence over {install (server change + poll), rollback (the previous version activated again + poll), Get(u1), Get(u2), NewUpdater, toggle builder-fails-next, make the next cache write fail} up to the depth on a real Store, against a model of the level-triggered notification; non-trivial = sequences containing an install followed by a Get"})
+	evs := []string{"install", "get1", "get2", "new", "failnext", "cachefail", "rollback"}
 	var seq []string
 	best := map[string][]string{}
 	bestMsg := map[string]string{}
